@@ -2165,6 +2165,10 @@ func unmarshalTuple(info TypeInfo, data []byte, value interface{}) error {
 					return err
 				}
 			}
+			if v[i] == nil {
+				// a nil scan target skips this element
+				continue
+			}
 			err := Unmarshal(elem, p, v[i])
 			if err != nil {
 				return err
